@@ -69,6 +69,8 @@ def lean_ops(c):
         elif m[0] == 'commit':
             ops.append(['commit'])
     ops.append(['close_keep'] if c['close'] == 'keep' else ['close_remove'])
+    if c.get('close_twice'):
+        ops.append(['close_remove'])
     return ops
 
 
@@ -223,19 +225,46 @@ def _child_hook(event, args):
         _K.point('connect')
 
 
+def _values(kind, tag, n, columns=1):
+    """the same numbers in the container / dtype variants callers use"""
+    import numpy as np
+    if columns == 1 and kind in (None, 'list_float'):
+        return [float(tag)] * n
+    if kind == 'list_int':
+        return [int(tag)] * n
+    if kind == 'tuple':
+        return tuple([float(tag)] * n)
+    dt = {'f64': np.float64, 'f32': np.float32, 'i32': np.int32, 'i64': np.int64}.get(kind, np.float64)
+    if columns == 1:
+        return np.array([tag] * n, dtype=dt)
+    return np.array([[tag]] * n, dtype=dt)
+
+
+def sqlfile_arg(c, name):
+    """the file-name argument in the variants callers use (str, pathlib.Path, bytes)"""
+    import pathlib
+    k = c.get('name_kind', 'str')
+    if k == 'path':
+        return pathlib.Path(name)
+    if k == 'bytes':
+        return os.fsencode(name)
+    return name
+
+
 def run_scenario(c, name):
-    """the real calls; returns the object (after close)"""
+    """the real calls; `name` is the file name as a str (relative to the cwd, or absolute); returns the object"""
     import numpy as np
     from pdb2sql import pdb2sql
     lines = pdb_lines(c['n'])
-    db = pdb2sql(lines, sqlfile=name, fix_chainID=bool(c.get('fix_chain')))
+    db = pdb2sql(lines, sqlfile=sqlfile_arg(c, name), fix_chainID=bool(c.get('fix_chain')))
     for m in c['steps']:
+        dt = m[2] if len(m) > 2 else None
         if m[0] == 'update_column':
             _CUR['op'] = ['update', m[1]]
-            db.update_column('temp', [float(m[1])] * c['n'])
+            db.update_column('temp', _values(dt, m[1], c['n']))
         elif m[0] == 'update':
             _CUR['op'] = ['update', m[1]]
-            db.update('temp', np.array([[float(m[1])]] * c['n']))
+            db.update('temp', _values(dt if dt in ('f64', 'f32', 'i32', 'i64') else 'f64', m[1], c['n'], columns=2))
         elif m[0] == 'add_column':
             _CUR['op'] = ['addcol', m[1]]
             db.add_column(m[1], 'FLOAT', 0)
@@ -243,15 +272,33 @@ def run_scenario(c, name):
             db._commit()
         _CUR['op'] = None
     db._close(rmdb=(c['close'] == 'remove'))
+    if _K is not None:
+        _K.done.append(['close_keep'] if c['close'] == 'keep' else ['close_remove'])     # the whole close is done
+    if c.get('close_twice'):
+        db._close(rmdb=True)                    # closing again (after remove: nothing left; after keep: the kept file goes)
+        if _K is not None:
+            _K.done.append(['close_remove'])
     return db
 
 
+def rel_name(c):
+    """where the database lives, relative to the working directory"""
+    return os.path.join('sub', c['name']) if c.get('name_kind') == 'subdir' else c['name']
+
+
 def _prepare_dir(ctx, c, name):
+    """name: path of the database relative to the new working directory"""
     wd = os.path.join(ctx.tmpdir(), 'c20_%d' % next(_COUNTER))
     os.makedirs(wd)
+    base = os.path.basename(name)
     for v in VICTIMS:
-        if v != name and v != name + '-journal':
+        if v != base and v != base + '-journal':
             open(os.path.join(wd, v), 'w').write('victim ' + v + '\n')
+    if os.path.dirname(name):
+        os.makedirs(os.path.join(wd, os.path.dirname(name)))
+        open(os.path.join(wd, os.path.dirname(name), 'victim_in_sub.txt'), 'w').write('victim in the sub-directory\n')
+        if base not in VICTIMS:
+            open(os.path.join(wd, base), 'w').write('a file of the same name one level up\n')
     p = os.path.join(wd, name)
     if c['r0'] == 'olddb':
         old_db(p)
@@ -265,12 +312,16 @@ _COUNTER = itertools.count()
 
 def _listing(wd):
     out = {}
-    for f in sorted(os.listdir(wd)):
-        p = os.path.join(wd, f)
-        try:
-            out[f] = hashlib.sha256(open(p, 'rb').read()).hexdigest() if os.path.isfile(p) else 'dir'
-        except OSError as e:
-            out[f] = 'unreadable'
+    for d, dirs, files in os.walk(wd):
+        dirs.sort()
+        for f in sorted(files):
+            p = os.path.join(d, f)
+            try:
+                out[os.path.relpath(p, wd)] = hashlib.sha256(open(p, 'rb').read()).hexdigest()
+            except OSError:
+                out[os.path.relpath(p, wd)] = 'unreadable'
+        for dd in dirs:
+            out[os.path.relpath(os.path.join(d, dd), wd) + '/'] = 'dir'
     return out
 
 
@@ -318,10 +369,11 @@ def _fork_run(ctx, c, name, wd, kill):
 
 
 def impl(ctx, c):
-    name = c['name']
+    name = rel_name(c)
     wd = _prepare_dir(ctx, c, name)
     before = _listing(wd)
     path = os.path.join(wd, name)
+    given = path if c.get('name_kind') == 'abs' else name          # what the caller passes
     out = {}
     if c['kind'] == 'normal':
         cwd0 = os.getcwd()
@@ -329,25 +381,29 @@ def impl(ctx, c):
         try:
             with warnings.catch_warnings():
                 warnings.simplefilter('ignore')
-                val, events = T.traced(lambda: run_scenario(c, name))
+                val, events = T.traced(lambda: run_scenario(c, given))
         finally:
             os.chdir(cwd0)
         out['outcome'] = 'ok' if val[0] == 'ok' else exc_tag(val[1])
         if val[0] != 'ok':
             out['error'] = repr(val[1])[:300]
-        # effect trace: every path argument must be exactly the name
+        # effect trace: every path argument must be exactly the name that was given
         tr, spawned, foreign = [], [], []
         for ev in events:
             k = ev[0]
             if k in ('isfile', 'os.remove', 'os.unlink', 'sqlite3.connect'):
-                arg = os.fsdecode(ev[1]) if isinstance(ev[1], bytes) else ev[1]
-                if arg != name:
+                arg = ev[1]
+                try:
+                    arg = os.fsdecode(os.fspath(arg))
+                except TypeError:
+                    arg = repr(arg)
+                if arg != given:
                     foreign.append([k, str(arg)])
-                tr.append([{'isfile': 'isFile', 'os.remove': 'remove', 'os.unlink': 'remove', 'sqlite3.connect': 'connect'}[k], 'db' if arg == name else 'other'])
+                tr.append([{'isfile': 'isFile', 'os.remove': 'remove', 'os.unlink': 'remove', 'sqlite3.connect': 'connect'}[k], 'db' if arg == given else 'other'])
             elif k in ('os.system', 'subprocess.Popen', 'os.posix_spawn', 'os.exec', 'os.fork', 'os.forkpty', 'os.spawn', 'pty.spawn'):
                 spawned.append([k, str(ev[1])[:80]])
                 tr.append(['shell'])
-            elif k in ('open', 'os.rename', 'tempfile.mkstemp', 'os.rmdir', 'os.mkdir', 'shutil.rmtree', 'os.truncate', 'os.link', 'os.symlink'):
+            elif k in ('open', 'os.rename', 'tempfile.mkstemp', 'os.rmdir', 'os.mkdir', 'shutil.rmtree', 'os.truncate', 'os.link', 'os.symlink', 'os.listdir', 'os.scandir'):
                 foreign.append([k, str(ev[1])[:80]])
         out['trace'] = tr
         out['spawned'] = spawned
@@ -404,7 +460,7 @@ def agree_spec(c, out, spec):
     if out['read'] in ('corrupt', 'notadb') and not (c['r0'] == 'garbage' and not c.get('ops_sent')):
         return f'file does not open cleanly: {out["read"]} {out.get("read_detail", "")}'
     if out['created'] or out['deleted'] or out['modified']:
-        extra = [x for x in out['created'] if x != c['name'] + '-journal']
+        extra = [x for x in out['created'] if x != rel_name(c) + '-journal']
         if extra or out['deleted'] or out['modified']:
             return f'other files touched: created {out["created"]} deleted {out["deleted"]} modified {out["modified"]}'
     if c['kind'] == 'normal':
@@ -414,7 +470,7 @@ def agree_spec(c, out, spec):
             return f'a process was spawned: {out["spawned"]}'
         if out['foreign']:
             return f'an action named something other than the database file: {out["foreign"]}'
-        if c['close'] == 'keep':
+        if c['close'] == 'keep' and not c.get('close_twice'):
             if out['read'] != spec['held'] or spec['held'] != spec['seen']:
                 return f'after close(keep) a reader finds {out["read"]}, the object held {spec["held"]}'
         else:
@@ -435,7 +491,8 @@ def agree_spec(c, out, spec):
 def nontrivial_key(c, out):
     nm = c['name']
     cls = 'plain' if nm.replace('.', '').isalnum() else 'hostile'
-    return [c['kind'], json.dumps(c.get('ops_sent')), json.dumps(out['read'], sort_keys=True), cls if c['kind'] == 'normal' else out.get('at'), c['r0']]
+    return [c['kind'], json.dumps(c.get('ops_sent')), json.dumps(out['read'], sort_keys=True), cls if c['kind'] == 'normal' else out.get('at'), c['r0'],
+            c.get('name_kind', 'str'), bool(c.get('close_twice'))]
 
 
 def distribution(recs):
@@ -458,17 +515,29 @@ def distribution(recs):
 # cases
 # ---------------------------------------------------------------------------------------------------------------
 
-def _scenario(rng, n=None):
-    mods = lambda: rng.choice([['update_column', rng.randint(1, 9)], ['update', rng.randint(1, 9)], ['add_column', 'q%d' % rng.randint(0, 99)]])    # noqa
+DTYPES = [None, 'list_int', 'tuple', 'f64', 'f32', 'i32', 'i64']
+
+
+def _scenario(rng, n=None, long=False):
+    def mods():
+        k = rng.choice(['update_column', 'update', 'add_column'])
+        if k == 'add_column':
+            return ['add_column', 'q%d' % rng.randint(0, 99)]
+        return [k, rng.randint(1, 9), rng.choice(DTYPES)]
     steps = []
-    if rng.random() < 0.7:
-        steps.append(mods())
-    if rng.random() < 0.3:
-        steps.append(mods())
-    if rng.random() < 0.6:
-        steps.append(['commit'])
-    if rng.random() < 0.7:
-        steps.append(mods())
+    if long:
+        # several modifications and several commits in any order (first call vs later calls on the same object)
+        for _ in range(rng.randint(3, 7)):
+            steps.append(['commit'] if rng.random() < 0.35 else mods())
+    else:
+        if rng.random() < 0.7:
+            steps.append(mods())
+        if rng.random() < 0.3:
+            steps.append(mods())
+        if rng.random() < 0.6:
+            steps.append(['commit'])
+        if rng.random() < 0.7:
+            steps.append(mods())
     # column names must be distinct
     seen, out = set(), []
     for s in steps:
@@ -477,8 +546,10 @@ def _scenario(rng, n=None):
                 continue
             seen.add(s[1])
         out.append(s)
-    return {'n': n or rng.choice([1, 2, 3, 5, 8, 13, 40]), 'steps': out, 'close': rng.choice(['keep', 'remove']),
-            'fix_chain': rng.random() < 0.25, 'r0': rng.choice(['nofile', 'nofile', 'olddb', 'garbage'])}
+    close = rng.choice(['keep', 'remove'])
+    return {'n': n or rng.choice([1, 2, 3, 5, 8, 13, 40]), 'steps': out, 'close': close,
+            'fix_chain': rng.random() < 0.25, 'r0': rng.choice(['nofile', 'nofile', 'olddb', 'garbage']),
+            'close_twice': rng.random() < (0.4 if close == 'remove' else 0.15)}
 
 
 def all_names():
@@ -503,12 +574,19 @@ def cases(ctx):
         {'n': 4, 'steps': [['add_column', 'w'], ['update_column', 2], ['add_column', 'v']], 'close': 'keep', 'fix_chain': False, 'r0': 'nofile'},
         {'n': 4, 'steps': [['update_column', 2], ['commit'], ['update_column', 6]], 'close': 'remove', 'fix_chain': False, 'r0': 'nofile'},
     ]
-    scen = fixed + [_scenario(rng) for _ in range(ctx.scale(14, 80))]
-    for s in scen:
-        c = dict(s, op='store_scenario', kind='normal', name=rng.choice(['atoms.db', 'x1.sqlite', 'data']))
+    fixed += [
+        {'n': 6, 'steps': [['update_column', 2, 'f32'], ['commit'], ['add_column', 'u'], ['update', 3, 'i32'], ['commit'], ['update_column', 4, 'list_int'],
+                           ['add_column', 'v'], ['commit'], ['update', 5, 'f64']], 'close': 'keep', 'fix_chain': True, 'r0': 'olddb'},
+        {'n': 6, 'steps': [['commit'], ['commit'], ['update_column', 2, 'i64'], ['add_column', 'u'], ['commit'], ['add_column', 'v'], ['update_column', 8, 'tuple']],
+         'close': 'remove', 'fix_chain': False, 'r0': 'garbage', 'close_twice': True},
+    ]
+    scen = fixed + [_scenario(rng) for _ in range(ctx.scale(14, 80))] + [_scenario(rng, long=True) for _ in range(ctx.scale(12, 80))]
+    kinds = ['str', 'str', 'path', 'bytes', 'abs', 'subdir']
+    for i, s in enumerate(scen):
+        c = dict(s, op='store_scenario', kind='normal', name=rng.choice(['atoms.db', 'x1.sqlite', 'data']), name_kind=kinds[i % len(kinds)])
         out.append(c)
     # (2) fault enumeration: a kill before every statement / commit / close / os.remove / connect
-    kill_scen = fixed + [_scenario(rng, n=rng.choice([2, 3, 6])) for _ in range(ctx.scale(4, 30))]
+    kill_scen = fixed + [_scenario(rng, n=rng.choice([2, 3, 6]), long=(j % 2 == 1)) for j in range(ctx.scale(4, 30))]
     for s in kill_scen:
         c0 = dict(s, op='store_scenario', kind='kill', name='k.db', kill=None)
         wd = _prepare_dir(ctx, c0, 'k.db')
@@ -523,8 +601,15 @@ def cases(ctx):
     names = names + CRAFTED
     for nm in names:
         s = {'n': 3, 'steps': rng.choice([[], [['update_column', 2]], [['add_column', 'w'], ['commit']]]),
-             'close': rng.choice(['keep', 'remove']), 'fix_chain': False, 'r0': rng.choice(['nofile', 'olddb', 'garbage'])}
-        out.append(dict(s, op='store_scenario', kind='normal', name=nm))
+             'close': rng.choice(['keep', 'remove']), 'fix_chain': False, 'r0': rng.choice(['nofile', 'olddb', 'garbage']),
+             'close_twice': rng.random() < 0.3}
+        nk = rng.choice(['str', 'str', 'str', 'path', 'bytes', 'abs', 'subdir'])
+        if nk == 'bytes':
+            try:
+                nm.encode('utf-8')
+            except UnicodeError:
+                nk = 'str'
+        out.append(dict(s, op='store_scenario', kind='normal', name=nm, name_kind=nk))
     return out
 
 
@@ -648,6 +733,45 @@ def extra_checks(ctx):
         if why:
             prob = {'name': nm, 'why': why}
             break
+    # two objects alive on the same name at once (outside the property's scenarios: the second removes the first's file
+    # under its feet, so errors are tolerated) -- still only the name and its journal may be touched, nothing spawned
+    prob2 = None
+    for nm in ['o.db', 'a b', '$(touch x)', "it's.db"]:
+        for order in range(4):
+            c = {'r0': 'nofile'}
+            wd = _prepare_dir(ctx, c, nm)
+            before = _listing(wd)
+            cwd0 = os.getcwd()
+            os.chdir(wd)
+            try:
+                def overlap():
+                    errs = []
+                    a = pdb2sql(pdb_lines(4), sqlfile=nm)
+                    b = pdb2sql(pdb_lines(2), sqlfile=nm)
+                    for obj, rm in ((a, order & 1), (b, order & 2)) if order < 2 else ((b, order & 1), (a, order & 2)):
+                        try:
+                            obj.update_column('temp', [3.0] * (4 if obj is a else 2))
+                            obj._close(rmdb=bool(rm))
+                        except Exception as e:      # noqa
+                            errs.append(type(e).__name__)
+                    return errs
+                with warnings.catch_warnings():
+                    warnings.simplefilter('ignore')
+                    val, events = T.traced(overlap)
+                after = _listing(wd)
+            finally:
+                os.chdir(cwd0)
+            spawned = [e for e in events if e[0] in ('os.system', 'subprocess.Popen', 'os.posix_spawn', 'os.exec', 'os.fork')]
+            touched = sorted(k for k in set(before) | set(after) if before.get(k) != after.get(k) and k not in (nm, nm + '-journal'))
+            named = sorted({os.fsdecode(os.fspath(e[1])) for e in events if e[0] in ('isfile', 'os.remove', 'os.unlink', 'sqlite3.connect')} - {nm})
+            shutil.rmtree(wd, ignore_errors=True)
+            if spawned or touched or named:
+                prob2 = {'name': nm, 'order': order, 'spawned': spawned[:2], 'other_files_touched': touched, 'other_names_used': named}
+                break
+        if prob2:
+            break
+    res.append({'name': 'two objects alive on one name (errors tolerated): only the name and its journal are touched, nothing spawned',
+                'ok': prob2 is None, 'case': prob2, 'detail': 'file names are not treated as data', 'replay_kind': 'input'})
     res.append({'name': 'two objects in a row on %d hostile names: exactly that file created, replaced, removed; victims untouched; nothing spawned' % len(names),
                 'ok': prob is None, 'case': prob, 'detail': 'file names are not treated as data', 'replay_kind': 'input'})
     return res
